@@ -9,6 +9,7 @@ FLAVOURS = {
     # name: (extra sim flags)
     "static": [],
     "dyn": ["-dyn"],
+    "faults": ["-faults"],
 }
 
 def _tool_fingerprint():
@@ -46,7 +47,9 @@ def run(ctx, flavour="static"):
     if tier == "thorough":
         shards, hist, maxn, steps = 16, 40, 10, 400
     else:
-        shards, hist, maxn, steps = 16, 3, 6, 150
+        shards, hist, maxn, steps = 16, 4, 6, 200
+    if flavour == "dyn":
+        steps, maxn = steps * 2, min(maxn, 5)
     sim_args = ["-hist", hist, "-maxn", maxn, "-steps", steps] + FLAVOURS[flavour]
     jobs = [(i, seed * 1000 + i, sim_args, os.path.join(cdir, "shard%02d.txt" % i)) for i in range(shards)]
     with ThreadPoolExecutor(max_workers=16) as ex:
